@@ -53,7 +53,6 @@ MODELLED = [
     ("write_opt_new_width", "prqlc/prqlc/src/codegen/mod.rs", r"fn\s+new_width\s*\("),
     ("pl_to_prql", "prqlc/prqlc/src/lib.rs", r"pub\s+fn\s+pl_to_prql\s*\("),
     # guards of the sites reviewed at the last re-baselining (Model/ReviewedSites.v)
-    ("ident_pop_front", "prqlc/prqlc-parser/src/parser/pr/ident.rs", r"pub\s+fn\s+pop_front\s*\("),
     ("ident_prepend", "prqlc/prqlc-parser/src/parser/pr/ident.rs", r"pub\s+fn\s+prepend\s*\("),
     ("only_equals", "prqlc/prqlc/src/sql/pq/preprocess.rs", r"fn\s+only_equals\s*\("),
     ("used_behind", "prqlc/prqlc/src/sql/pq/preprocess.rs", r"fn\s+used_behind\s*\("),
@@ -69,7 +68,9 @@ EXCERPTS = [
     ("static_eval_neg", "prqlc/prqlc/src/semantic/resolver/static_eval.rs",
      r"(\"std\.neg\" => match &args\[0\]\.kind \{ ExprKind::Literal\(Literal::Integer\(val\)\) => \{.*?\} ExprKind::Literal\(Literal::Float\(val\)\) => [^,]*, _ => \(\), \},)", True),
     ("names_relative", "prqlc/prqlc/src/semantic/resolver/names.rs",
-     r"(let mut found = None; if !self\.current_module_path\.is_empty\(\) && ident\.name != \"\*\" \{ let mut rel = .*? rel = rel\.pop_front\(\)\.1\.unwrap\(\); \} \})", True),
+     r"(let mut found = None; if ident\.name != \"\*\" \{ let path = self\.current_module_path\.clone\(\); for n in \(1\.\.=path\.len\(\)\)\.rev\(\) \{ let rel = ident\.clone\(\)\.prepend\(path\[\.\.n\]\.to_vec\(\)\); .*? break; \} \} \})", True),
+    ("names_core_relative", "prqlc/prqlc/src/semantic/resolver/names.rs",
+     r"(let path = self\.current_module_path\.clone\(\); let mut res = self\.resolve_ident_core\(&ident\.clone\(\)\.prepend\(path\.clone\(\)\), None\); for n in \(0\.\.path\.len\(\)\)\.rev\(\) \{ if res\.is_ok\(\) \{ break; \} res = self\.resolve_ident_core\(&ident\.clone\(\)\.prepend\(path\[\.\.n\]\.to_vec\(\)\), None\); \} res)", True),
     ("distinct_enumerate", "prqlc/prqlc/src/sql/pq/preprocess.rs",
      r"(for \(position, transform\) in pipeline\.clone\(\)\.into_iter\(\)\.enumerate\(\) \{)", False),
     ("distinct_rest_behind", "prqlc/prqlc/src/sql/pq/preprocess.rs",
@@ -429,12 +430,14 @@ def write_baseline():
     print("baseline written: %d (file, kind) rows, totals %s" % (len(info["sites"]), info["total"]))
 
 
-REVIEW_NOTE = """(* REVIEW LOG of the last re-recording (/repo at 2a611aa, 46 commits after b55902d).  Rows that grew, every added
-   site read in its context; each is restated with its guard in Model/ReviewedSites.v and proved unreachable in
-   Proofs/ReviewedSitesProofs.v (theorems c12_reviewed_* of Props/C12.v), its text pinned in `modelled_expected`:
-     semantic/resolver/names.rs   unwrap 11 -> 12   `rel.pop_front().1.unwrap()` in resolve_ident (d92afac): rel has
-                                  current_module_path.len() + ident.path.len() path parts, the loop pops
-                                  current_module_path.len() times                          (c12_reviewed_names_relative)
+REVIEW_NOTE = """(* REVIEW LOG of the last re-recording (/repo at d7151cc, 52 commits after b55902d).  Rows that grew since the
+   baseline of b55902d, every added site read in its context; each is restated with its guard in Model/ReviewedSites.v
+   and proved unreachable in Proofs/ReviewedSitesProofs.v (theorems c12_reviewed_* of Props/C12.v), its text pinned in
+   `modelled_expected`:
+     semantic/resolver/names.rs   index 0 -> 2, unwrap 11 -> 10   resolve_ident (d92afac added a loop with
+                                  `rel.pop_front().1.unwrap()`; 7f02b48 rewrote both loops: no unwrap, the sites are the
+                                  slices `path[..n]` with n in (1..=path.len()).rev() resp. (0..path.len()).rev(),
+                                  so n <= path.len())      (c12_reviewed_names_relative, c12_reviewed_names_core_relative)
      sql/pq/preprocess.rs         index_lit 6 -> 8  `args[0]`, `args[1]` in only_equals (e9c9719) under
                                   `args.len() == 2`                                        (c12_reviewed_only_equals)
      sql/pq/preprocess.rs         index 10 -> 14    `pipeline[position + 1..]` in distinct (bc8ad7d), `res[position]`
@@ -445,14 +448,15 @@ REVIEW_NOTE = """(* REVIEW LOG of the last re-recording (/repo at 2a611aa, 46 co
                                   only_these_used (bc8ad7d): `with` is the RIId of a SqlTransform::Join; RIIds are made
                                   only by AnchorContext::create_relation_instance, which inserts the instance, and
                                   nothing removes from relation_instances (same reliance as the three existing
-                                  `relation_instances.get(..).unwrap()` of this file: lines 99, 431, 551).  NOT
-                                  modelled: an invariant of the anchor context, not a local guard.
+                                  `relation_instances.get(..).unwrap()` of this file).  NOT modelled: an invariant of
+                                  the anchor context, not a local guard.
      semantic/lowering.rs         unwrap 41 -> 40 (287b286 removed two, 7911778 added one): `name.as_single().unwrap()`
                                   in lookup_cid on a value built as RelationColumn::Single(Some(..)) a few lines
                                   above                                                    (c12_reviewed_lookup_cid_name)
    Rows that shrank: lowering.rs panic 1 -> 0 (7911778), utils/id_gen.rs unwrap 1 -> 0 (79f4a51), postprocess.rs
-   index 7 -> 6.  arith 11 -> 14: the newly modelled functions (codegen/mod.rs consume / reset_line, preprocess.rs
-   `position + 1`) -- all restated in Model/WidthArith.v / Model/ReviewedSites.v.
+   index 7 -> 6.  006e33c (lowering.rs) and bb7bbd5 (std.sql.prql) add no site.  arith 11 -> 14: the newly modelled
+   functions (codegen/mod.rs consume / reset_line, preprocess.rs `position + 1`) -- all restated in Model/WidthArith.v /
+   Model/ReviewedSites.v.
    Code under #[cfg(prqlc_verif)] (the verification hooks) is not scanned: it is not compiled in normal builds. *)
 """
 
